@@ -32,7 +32,7 @@ ASSUMPTIONS = [
 FLOORS = {"quick": {"valid_v2s": 1500, "valid_s2v": 1200, "h_nontrivial": 200, "two_viewers": 100,
                     "fault:frag": 20, "fault:rsv": 20, "fault:atyp": 20, "fault:short": 20, "fault:unknown_host": 20,
                     "fault:no_circuit": 20, "fault:presession": 20, "fault:banned_in": 20, "fault:truncated": 8,
-                    "fault:bitflip": 8, "fault:unknown_msgnum": 10, "fault:foreign_ucc": 10, "fault:foreign_socks": 10, "fault:replay_ucc": 5, "fault:sim_first": 20, "fault:nonsocks": 20,
+                    "fault:bitflip": 8, "fault:unknown_msgnum": 10, "fault:acks_eat_body": 10, "fault:foreign_ucc": 10, "fault:foreign_socks": 10, "fault:replay_ucc": 5, "fault:sim_first": 20, "fault:nonsocks": 20,
                     "fault:atyp3": 20, "fault:unregistered": 20}}
 MANIFEST = {
     "text": "Generated multi-session datagram histories with interleaved faults through the real proxy protocol stack; every "
@@ -338,7 +338,7 @@ class Run:
             if len(self.dispatched) != n_disp:
                 return [("fault-disturbed-state:banned_in:dispatched", "a %s received over UDP (banned there) was still dispatched to the session's "
                          "message handlers" % case["name"])]
-        elif kind in ("truncated", "bitflip", "unknown_msgnum"):
+        elif kind in ("truncated", "bitflip", "unknown_msgnum", "acks_eat_body"):
             inbound = bool(p & 1) and (v, addr) in self.learned
             if not self.open.get((v, r)):
                 self.classes.pop()
@@ -349,6 +349,12 @@ class Run:
                 pos = 6 + (p >> 1) % max(1, len(payload) - 6)
                 pos = min(pos, len(payload) - 1)
                 bad = payload[:pos] + bytes([payload[pos] ^ (1 << (p % 8))]) + payload[pos + 1:]
+            elif kind == "acks_eat_body":
+                # ACK flag set and a trailer of n acks that takes up everything behind the 6-byte header: there is no message number, the
+                # datagram is not a message - whatever the bytes in the ack positions would spell as one (CloseCircuit, DisableSimulator, ...)
+                n_acks = 1 + (p >> 3) % 3
+                first = [b"\xff\xff\xff\xfd", b"\xff\xff\x00\x98", b"\xff\xff\xff\xfb", struct.pack(">I", 0xFFFF0000 | ((p >> 5) % 400))][(p >> 1) % 4]
+                bad = bytes([0x10 | (0x40 if p & 0x1000 else 0)]) + struct.pack(">I", 50000 + p) + b"\x00" + first + b"\x00\x00\x00\x07" * (n_acks - 1) + bytes([n_acks])
             else:
                 bad = payload[:6] + b"\xff\xff\x7f\xf0" + payload[6:]
             if inbound:
@@ -367,7 +373,7 @@ class Run:
                 if dst != want_dst or assoc != v:
                     out.append(("wrong-peer:%s" % kind, "corrupt datagram forwarded to %r" % (dst,)))
                 try:
-                    want = DESER.deserialize(bad).to_dict()
+                    want = DESER.deserialize(bad).to_dict() if kind != "acks_eat_body" else None      # not a message, by construction
                 except Exception:
                     want = None
                 if want is not None:
@@ -459,11 +465,13 @@ def _events(nv, nr):
                                                      "ImprovedTerseObjectUpdate", "ObjectProperties", "RequestMultipleObjects", "ParcelOverlay")
                                          if n in gt.TEMPLATES], **small)
     kinds = ["frag", "rsv", "atyp", "atyp3", "short", "nonsocks", "unknown_host", "unregistered", "truncated", "bitflip", "unknown_msgnum",
-             "foreign_ucc", "foreign_socks", "replay_ucc"]
+             "foreign_ucc", "foreign_socks", "replay_ucc", "acks_eat_body"]
     return st.one_of(
         st.tuples(st.just("ucc"), vs, rs),
         st.tuples(st.just("v2s"), vs, rs, v2s_case), st.tuples(st.just("v2s"), vs, rs, v2s_case),
         st.tuples(st.just("s2v"), vs, rs, s2v_case), st.tuples(st.just("s2v"), vs, rs, s2v_case),
+        # a circuit-opening request travelling the other way is a message like any other
+        st.tuples(st.just("s2v"), vs, rs, gt.message_case(names=["UseCircuitCode"], **small)),
         st.tuples(st.just("close"), vs, rs, st.booleans()),
         st.tuples(st.just("disconnect"), vs),
         st.tuples(st.just("fault"), st.sampled_from(kinds), vs, rs, v2s_case, st.integers(0, 10000)),
